@@ -315,6 +315,7 @@ func BuildWorldWith(impl *Impl, prop string, def *WorldDef, sched *Sched) (*Worl
 	sched.Hold()
 	defer sched.Release()
 	for i := range def.Segs {
+		Heartbeat()
 		sd := &def.Segs[i]
 		var ws *WSeg
 		var fail *Fail
